@@ -28,6 +28,8 @@ pub enum L {
     CallCalAbandon,
     /// Addr::restart - not a message: what was accepted before and after it keeps its order
     Restart,
+    /// OwningAddr::ping
+    PingOwn,
 }
 
 pub const WAITING: [L; 5] = [L::SendAddr, L::SendSnd, L::CallCal, L::SendWSnd, L::CallWCal];
@@ -50,6 +52,7 @@ pub fn to_op(l: L, id: u32) -> Op {
         L::CallAbandon => Op::CallAbandon(H::Addr(0), id),
         L::CallCalAbandon => Op::CallAbandon(H::Cal(0), id),
         L::Restart => Op::Restart(H::Addr(0)),
+        L::PingOwn => Op::Ping(H::Own(0)),
     }
 }
 
@@ -159,6 +162,30 @@ pub fn oracle(s: &ProgScene<X>, t: &Trace) -> Vec<Violation> {
                         }),
                         _ => {}
                     }
+                }
+            }
+        }
+    }
+    // (3b) a ping is a submission like any other: when it returns Ok, its probe has been through
+    // the mailbox, so everything whose submission had completed before the ping began has been
+    // handled by then
+    for (c, cs) in s.clients.iter().enumerate() {
+        for (i, op) in cs.ops.iter().enumerate() {
+            if !matches!(op, Op::Ping(_)) {
+                continue;
+            }
+            let Some(p) = an.op(c as u8, i as u16) else { continue };
+            let (true, Some(pend)) = (p.ok(), p.end) else { continue };
+            for m1 in subs.iter().filter(|m| m.ok && m.end.is_some_and(|e| e < p.begin)) {
+                crate::check::oblige("ping-is-ordered");
+                let handled_by_then = an.exit_of_msg(0, m1.id).is_some_and(|x| x.idx < pend);
+                let abandoned = s.extra.abandoned == Some(m1.id);
+                if !handled_by_then && !abandoned {
+                    out.push(Violation {
+                        clause: "fifo-order",
+                        key: format!("C01/ping-overtook/{}/mailbox={mb}", m1.letter),
+                        detail: format!("{op:?} of client {c} returned Ok although message {} - accepted before the ping began - had not been handled yet", m1.id),
+                    });
                 }
             }
         }
@@ -315,7 +342,7 @@ pub fn seqs(alpha: &[L], n: usize) -> Vec<Vec<L>> {
 fn plain_cases(tier: Tier) -> Vec<Case> {
     let mut v = vec![];
     let mailboxes = [Mailbox::U, Mailbox::B(0), Mailbox::B(1), Mailbox::B(2)];
-    let own_alpha: Vec<L> = ALL.iter().copied().chain([L::SendOwn, L::CallOwn]).collect();
+    let own_alpha: Vec<L> = ALL.iter().copied().chain([L::SendOwn, L::CallOwn, L::PingOwn]).collect();
     for &mb in &mailboxes {
         for yields in [0u8, 1] {
             // one client: [1], [2], [3] (client 0 may also use the owning address)
